@@ -17,7 +17,7 @@ const ODD_KEYS: &[&str] = &["a b", "", "a.b", "0"];
 const NUMS: &[&str] = &["0", "1", "-1", "42", "1.0", "1e2", "-0", "1.5", "-2.5e-3", "9223372036854775807", "9223372036854775808", "-9223372036854775808", "-9223372036854775809", "18446744073709551615", "18446744073709551616", "1e400", "-1e400", "1E5", "0.1", "123456789012345678901234567890", "7", "3"];
 const STRS: &[&str] = &["", "x", "hello world", "42", "-7", "1.5", "true", "2021-03-04 05:06:07", "1:02:03", "quote\"inside", "back\\slash", "tab\there", "line\nbreak", "\u{e5}\u{1F600}", "NaN", " 5 ", "null"];
 
-fn gen_value(rng: &mut Rng, depth: usize) -> JV {
+pub fn gen_value(rng: &mut Rng, depth: usize) -> JV {
     let leafy = depth == 0 || rng.chance(1, 2);
     if leafy {
         return match rng.below(8) { 0 => JV::Null, 1 => JV::Bool(rng.chance(1, 2)), 2 | 3 | 4 => JV::Num(rng.pick(NUMS).to_string()), _ => JV::Str(rng.pick(STRS).to_string()) };
@@ -30,7 +30,7 @@ fn gen_value(rng: &mut Rng, depth: usize) -> JV {
     } else { gen_object(rng, depth) }
 }
 
-fn gen_object(rng: &mut Rng, depth: usize) -> JV {
+pub fn gen_object(rng: &mut Rng, depth: usize) -> JV {
     let n = rng.below(6);
     let mut fields: Vec<(String, JV)> = Vec::new();
     for _ in 0..n {
@@ -65,7 +65,7 @@ pub fn write_json(rng: &mut Rng, v: &JV, out: &mut String) {
 }
 
 /// a path that walks into `doc` (so it often resolves), possibly perturbed
-fn gen_path(rng: &mut Rng, doc: &JV) -> Vec<JsonStep> {
+pub fn gen_path(rng: &mut Rng, doc: &JV) -> Vec<JsonStep> {
     let mut steps = Vec::new();
     let mut cur = doc;
     let want = 1 + rng.below(5);
